@@ -7,9 +7,132 @@
     an argued allow-list, and that independent replays of recorded block histories agree
     ([replay_monitor_sound] says what the replay monitor's silence means). *)
 From Coq Require Import List String NArith Bool Permutation Sorting.Sorted.
-From Teleport Require Import Base.Bytes Base.Outcome Model.MapLoops Model.ReplayCheck
-  Proofs.MapLoops Proofs.MapLoopsTable Proofs.ReplayCheck.
+From Teleport Require Import Base.Bytes Base.Outcome Model.MapLoops Model.MapLoopsIR Model.ReplayCheck
+  Proofs.MapLoops Proofs.MapLoopsIR Proofs.MapLoopsTable Proofs.ReplayCheck.
 Import ListNotations.
+
+(** ** The full statement, and the part of it that is a theorem
+
+    For a state machine whose block processing may consult the node it runs on ([Env]: map iteration seeds, scheduler,
+    clock, random source, file system, environment variables) the property reads: *)
+Definition C14_full_statement {Env Genesis Block Trace : Type} (replay : Env -> Genesis -> list Block -> Trace) : Prop :=
+  forall (e e' : Env) (g : Genesis) (blocks : list Block), replay e g blocks = replay e' g blocks.
+(** with [Trace] = application hash after every block, results and events of every transaction.  To PROVE it of /repo,
+    [replay] would have to be the semantics of the whole Go program (teleport + cosmos-sdk + ethermint + go-ethereum +
+    tendermint + the Go runtime); that is not available.  What is proved instead is the clause "never depends on map
+    iteration order" for every [range]-over-map statement of the state machine's own source that the classifier
+    accepts — [C14_map_iteration_partial] below, over a loop language regenerated from the source, for EVERY
+    interpretation of its expressions.  Missing for the full statement: (1) the three argued loops of the ethash
+    remote sealer and every map loop inside library code (one of which — cosmos-sdk TypedEventToEvent — was a defect);
+    (2) proofs, instead of arguments, that clock / randomness / goroutines / file system reads cannot reach state
+    ([Model/DeterminismCheck.v: allow_list]); (3) a proved link between the loop language and Go (the translator and
+    the reading of [Model/MapLoopsIR.v: run_loop] as Go's semantics are trusted).  The replay engine checks the full
+    statement on generated histories ([replay_monitor_sound] is what its silence means). *)
+
+(** *** every classified map loop is order independent, for every evaluator *)
+
+(** shape "store": the written maps are lookup-equivalent (or both executions panic), provided entries that write the
+    same key of the same map write the same value *)
+Theorem classified_store_loop_order_independent :
+  forall (val : Type) (ev : evaluator val) (kvar vvar : string) (ranged : expr) (after : list stmt) (t : tree),
+    classify_tree kvar vvar ranged after t = Some ShStore ->
+    forall (inv : env val) (st : store val) (l l' : list (val * val)), Permutation l l' ->
+      store_consistent (effs ev t kvar vvar inv st l) ->
+      result_equiv ev (run_loop ev t kvar vvar inv l st) (run_loop ev t kvar vvar inv l' st).
+Proof. exact @classified_store_sound. Qed.
+Print Assumptions classified_store_loop_order_independent.
+
+(** shape "search" (early return): the same return, or the loop runs to the end with the store untouched *)
+Theorem classified_search_loop_order_independent :
+  forall (val : Type) (ev : evaluator val) (kvar vvar : string) (ranged : expr) (after : list stmt) (t : tree),
+    classify_tree kvar vvar ranged after t = Some ShSearch ->
+    forall (inv : env val) (st : store val) (l l' : list (val * val)), Permutation l l' ->
+      run_loop ev t kvar vvar inv l st = run_loop ev t kvar vvar inv l' st.
+Proof. exact @classified_search_sound. Qed.
+Print Assumptions classified_search_loop_order_independent.
+
+(** shape "collect, then sort": the loop always completes, touches nothing but the slice [s], collects the same
+    elements up to order — and the statement right after it sorts [s], so for a sorter that is a function of the
+    multiset the sorted slices are equal *)
+Theorem classified_collect_sort_loop_order_independent :
+  forall (val : Type) (ev : evaluator val) (kvar vvar : string) (ranged : expr) (after : list stmt) (t : tree) (s by_type : string),
+    classify_tree kvar vvar ranged after t = Some (ShCollectSort s by_type) ->
+    forall (inv : env val) (st : store val) (l l' : list (val * val)), Permutation l l' ->
+    exists x y, run_loop ev t kvar vvar inv l st = RCont x /\ run_loop ev t kvar vvar inv l' st = RCont y /\
+      (forall m, get_map m x = get_map m y) /\
+      (forall s', s' <> s -> get_slice s' x = get_slice s' y) /\
+      Permutation (get_slice s x) (get_slice s y) /\
+      (forall sorter : list val -> list val, (forall a b, Permutation a b -> sorter a = sorter b) ->
+         sorter (get_slice s x) = sorter (get_slice s y)) /\
+      exists rest, after = SSort s by_type :: rest.
+Proof. exact @classified_collect_sound. Qed.
+Print Assumptions classified_collect_sort_loop_order_independent.
+
+(** what a classified search loop computes: it returns iff some entry's iteration returns, else the store is untouched
+    (the generic form of [recents_check_meaning]) *)
+Theorem classified_search_loop_meaning :
+  forall (val : Type) (ev : evaluator val) (kvar vvar : string) (ranged : expr) (after : list stmt) (t : tree),
+    classify_tree kvar vvar ranged after t = Some ShSearch ->
+    forall (inv : env val) (st : store val) (l : list (val * val)),
+      (exists vs e, run_loop ev t kvar vvar inv l st = RRet vs /\ In e l /\
+                    run_tree ev t (entry_env kvar vvar inv e) st = FReturn vs) \/
+      (run_loop ev t kvar vvar inv l st = RCont st /\
+       forall e, In e l -> run_tree ev t (entry_env kvar vvar inv e) st = FSkip).
+Proof. exact @classified_search_meaning. Qed.
+Print Assumptions classified_search_loop_meaning.
+
+(** what a classified store loop computes: it panics iff some entry's iteration panics; otherwise no slice changes and
+    map [m] holds [v] under [k] iff some entry stored it there, or no entry stored under that key and it was there
+    before (the generic form of [map_copy_is_copy] / [handler_table_panics_iff]) *)
+Theorem classified_store_loop_meaning :
+  forall (val : Type) (ev : evaluator val) (kvar vvar : string) (ranged : expr) (after : list stmt) (t : tree),
+    classify_tree kvar vvar ranged after t = Some ShStore ->
+    forall (inv : env val) (st : store val) (l : list (val * val)), store_consistent (effs ev t kvar vvar inv st l) ->
+      (run_loop ev t kvar vvar inv l st = RPanic /\ exists e, In e l /\ run_tree ev t (entry_env kvar vvar inv e) st = FPanic) \/
+      (exists x, run_loop ev t kvar vvar inv l st = RCont x /\
+         (forall s, get_slice s x = get_slice s st) /\
+         forall m k v, mlookup (ev_eqb ev) k (get_map m x) = Some v <->
+           (exists e, In e l /\ run_tree ev t (entry_env kvar vvar inv e) st = FStore m k v) \/
+           ((forall e v', In e l -> run_tree ev t (entry_env kvar vvar inv e) st <> FStore m k v') /\
+            mlookup (ev_eqb ev) k (get_map m st) = Some v)).
+Proof. exact @classified_store_meaning. Qed.
+Print Assumptions classified_store_loop_meaning.
+
+(** a sorter meeting [sort_spec] (sorted permutation under byte-wise comparison) IS a function of the multiset: the
+    premise of the previous theorem holds for sort.Sort(validatorsAscending(_)) whatever algorithm sort.Sort uses *)
+Theorem sort_spec_is_canonical :
+  forall sort : list bytes -> list bytes, sort_spec sort -> forall a b, Permutation a b -> sort a = sort b.
+Proof.
+  intros sort S a b P. destruct (S a) as [Pa Sa]. destruct (S b) as [Pb Sb].
+  apply sorted_perm_unique; auto.
+  eapply Permutation_trans; [exact Pa|]. eapply Permutation_trans; [exact P|]. apply Permutation_sym. exact Pb.
+Qed.
+Print Assumptions sort_spec_is_canonical.
+
+(** the proved part of the property *)
+Theorem C14_map_iteration_partial :
+  forall (val : Type) (ev : evaluator val) (s : site) (t : tree) (sh : shape), classify s = Some (t, sh) ->
+  forall (inv : env val) (st : store val) (l l' : list (val * val)), Permutation l l' ->
+  match sh with
+  | ShStore => store_consistent (effs ev t (s_kvar s) (s_vvar s) inv st l) ->
+               result_equiv ev (run_loop ev t (s_kvar s) (s_vvar s) inv l st) (run_loop ev t (s_kvar s) (s_vvar s) inv l' st)
+  | ShSearch => run_loop ev t (s_kvar s) (s_vvar s) inv l st = run_loop ev t (s_kvar s) (s_vvar s) inv l' st
+  | ShCollectSort sl _ =>
+      exists x y, run_loop ev t (s_kvar s) (s_vvar s) inv l st = RCont x /\ run_loop ev t (s_kvar s) (s_vvar s) inv l' st = RCont y /\
+        forall sorter : list val -> list val, (forall a b, Permutation a b -> sorter a = sorter b) ->
+          sorter (get_slice sl x) = sorter (get_slice sl y)
+  end.
+Proof.
+  intros val ev s t sh C inv st l l' P. unfold classify in C.
+  destruct (to_tree (s_body s)) as [t0|]; [|discriminate]. cbn [opt_bind] in C.
+  destruct (classify_tree (s_kvar s) (s_vvar s) (s_ranged s) (s_after s) t0) as [sh0|] eqn:CT; [|discriminate].
+  cbn [opt_bind] in C. inversion C; subst t0 sh0. destruct sh as [| |sl bt].
+  - intro SC. eapply classified_store_sound; eauto.
+  - eapply classified_search_sound; eauto.
+  - destruct (classified_collect_sound ev _ _ _ _ _ _ _ CT inv st l l' P) as (x & y & Ex & Ey & _ & _ & _ & HS & _).
+    exists x, y. auto.
+Qed.
+Print Assumptions C14_map_iteration_partial.
 
 (** ** BSC light client *)
 
@@ -127,6 +250,36 @@ Theorem eth_seal_in_memory_env_independent :
 Proof. exact verify_cascading_in_memory_env_independent. Qed.
 Print Assumptions eth_seal_in_memory_env_independent.
 
+(** the same with every environment touch point of the ethash engine in the model (cache file found / creatable,
+    dataset ready or not): with the configuration VerifyCascadingFields passes (in-memory cache, light verification —
+    [Props/C14_inventory.v: eth_seal_verification_in_memory_and_light] re-checks it on the regenerated call) the verdict
+    is the same on every node, and it is hashimotoLight's verdict on the generated words *)
+Theorem eth_seal_env_independent :
+  forall (Header Sched : Type) (light : list N -> Header -> bool) (full : Sched -> Header -> option bool)
+         (gen : list N) (fs fs' : fs_env) (sc sc' : Sched) (h : Header),
+  verify_cascading_env light full false true gen fs sc h = verify_cascading_env light full false true gen fs' sc' h.
+Proof. exact @verify_cascading_env_independent. Qed.
+Print Assumptions eth_seal_env_independent.
+
+Theorem eth_seal_verdict_meaning :
+  forall (Header Sched : Type) (light : list N -> Header -> bool) (full : Sched -> Header -> option bool)
+         (gen : list N) (fs : fs_env) (sc : Sched) (h : Header),
+  verify_cascading_env light full false true gen fs sc h = Ok tt <-> light gen h = true.
+Proof. exact @verify_cascading_env_meaning. Qed.
+Print Assumptions eth_seal_verdict_meaning.
+
+(** both premises are needed: with a cache directory a stale cache file changes the verdict, with fulldag the verdict
+    depends on whether the background generation has finished *)
+Example eth_seal_disk_cache_or_full_dag_env_dependent :
+  let light (w : list N) (h : N) := match w with x :: _ => N.eqb x h | [] => false end in
+  let full (ready : bool) (h : N) := if ready then Some false else None in
+  verify_cascading_env light full false false [7%N] {| fe_mapped_file := None; fe_can_create := true |} true 7%N <>
+  verify_cascading_env light full false false [7%N] {| fe_mapped_file := Some [8%N]; fe_can_create := true |} true 7%N /\
+  verify_cascading_env light full true true [7%N] {| fe_mapped_file := None; fe_can_create := true |} true 7%N <>
+  verify_cascading_env light full true true [7%N] {| fe_mapped_file := None; fe_can_create := true |} false 7%N.
+Proof. vm_compute. split; discriminate. Qed.
+Print Assumptions eth_seal_disk_cache_or_full_dag_env_dependent.
+
 (** ** the table cites only proved lemmas *)
 Theorem site_table_certified : table_certified = true.
 Proof. exact table_certified_ok. Qed.
@@ -189,3 +342,100 @@ Example replay_monitor_concrete :
   replay_disagreements [[[o 5%N]; [o 5%N]]; [[o 5%N; o 6%N]; [o 5%N; o 7%N]]] = [(1, (1, 8))].
 Proof. vm_compute. reflexivity. Qed.
 Print Assumptions replay_monitor_concrete.
+
+(** the premise of [handler_table_order_independent] cannot be dropped: two events with the same ID and different
+    handlers give tables that differ with the order *)
+Example handler_table_collision_matters :
+  exists l l' : list (N * N),
+    Permutation l l' /\ NoDup (map fst l) /\
+    ~ outcome_mequiv N.eqb (handler_loop (fun n : N => Some n) (fun _ : N => 0%N) l) (handler_loop (fun n : N => Some n) (fun _ : N => 0%N) l').
+Proof.
+  exists [(1%N, 7%N); (2%N, 8%N)], [(2%N, 8%N); (1%N, 7%N)].
+  split; [apply perm_swap|]. split.
+  - cbn. constructor; [intros [H|[]]; discriminate|]. constructor; [intros []|constructor].
+  - intro H. specialize (H 0%N). vm_compute in H. discriminate.
+Qed.
+Print Assumptions handler_table_collision_matters.
+
+(** ** the loop language: non-vacuity *)
+Local Open Scope string_scope.
+Local Open Scope list_scope.
+
+(** the loops of the source as the translator emits them (copies of [Gen/HazardsGen.v] rows) are classified ... *)
+Definition ex_recents : site := {|
+  s_file := "x/xibc/clients/light-clients/bsc/types/header.go"; s_func := "verifySeal"; s_hash := ""; s_kvar := "seen"; s_vvar := "recent";
+  s_ranged := E "snap.Recents" ["snap"] [];
+  s_body := [SIf (E "recent == signer" ["recent"; "signer"] [])
+               [SLocal "limit" (E "uint64(len(snap.Validators)/2 + 1)" ["snap"] ["len"]);
+                SIf (E "number < limit || seen > number-limit" ["number"; "limit"; "seen"] [])
+                    [SReturn [E "sdkerrors.Wrap(ErrRecentlySigned, signer.Hex())" ["ErrRecentlySigned"; "signer"]
+                                ["github.com/cosmos/cosmos-sdk/types/errors.Wrap"; "(github.com/ethereum/go-ethereum/common.Address).Hex"]]] []] []];
+  s_after := []; s_text := "" |}.
+
+Definition ex_validators (after : list stmt) : site := {|
+  s_file := "x/xibc/clients/light-clients/bsc/types/snapshot.go"; s_func := "*snapshot.validators"; s_hash := ""; s_kvar := "v"; s_vvar := "_";
+  s_ranged := E "s.Validators" ["s"] []; s_body := [SAppend "validators" (E "v" ["v"] [])];
+  s_after := after; s_text := "" |}.
+
+Definition ex_copy : site := {|
+  s_file := "app/app.go"; s_func := "GetMaccPerms"; s_hash := ""; s_kvar := "k"; s_vvar := "v";
+  s_ranged := E "maccPerms" ["maccPerms"] []; s_body := [SStore "dup" (E "k" ["k"] []) (E "v" ["v"] [])];
+  s_after := []; s_text := "" |}.
+
+Example classifier_accepts :
+  option_map snd (classify ex_recents) = Some ShSearch /\
+  option_map snd (classify (ex_validators [SSort "validators" "validatorsAscending"; SReturn [E "validators" ["validators"] []]])) =
+    Some (ShCollectSort "validators" "validatorsAscending") /\
+  option_map snd (classify ex_copy) = Some ShStore.
+Proof. vm_compute. repeat split. Qed.
+Print Assumptions classifier_accepts.
+
+(** ... and order-dependent variants are not: the sort made conditional, a [break] after the first entry of the signer,
+    a walk that counts entries and returns the loop variable, an append to a struct field, a loop that reads the map it
+    writes *)
+Example classifier_rejects :
+  classify (ex_validators [SIf (E "len(validators) > 21" ["validators"] ["len"]) [SSort "validators" "validatorsAscending"] []]) = None /\
+  classify {| s_file := ""; s_func := ""; s_hash := ""; s_kvar := "seen"; s_vvar := "recent"; s_ranged := E "snap.Recents" ["snap"] [];
+              s_body := [SIf (E "recent == signer" ["recent"; "signer"] [])
+                           [SIf (E "seen > number-limit" ["seen"; "number"; "limit"] []) [SReturn [E "err" ["err"] []]] []; SOther "break"] []];
+              s_after := []; s_text := "" |} = None /\
+  classify {| s_file := ""; s_func := ""; s_hash := ""; s_kvar := "v"; s_vvar := "_"; s_ranged := E "s.Validators" ["s"] [];
+              s_body := [SIf (E "i == offset" ["i"; "offset"] []) [SReturn [E "v == validator" ["v"; "validator"] []]] []; SOther "i++"];
+              s_after := []; s_text := "" |} = None /\
+  classify {| s_file := ""; s_func := ""; s_hash := ""; s_kvar := "v"; s_vvar := "_"; s_ranged := E "s.Validators" ["s"] [];
+              s_body := [SIf (E "i == offset" ["i"; "offset"] []) [SReturn [E "v == validator" ["v"; "validator"] []]] []];
+              s_after := []; s_text := "" |} = None /\
+  classify {| s_file := ""; s_func := ""; s_hash := ""; s_kvar := "val"; s_vvar := "_"; s_ranged := E "newVals" ["newVals"] [];
+              s_body := [SOther "clientState.Validators = append(clientState.Validators, val.Bytes())"];
+              s_after := []; s_text := "" |} = None /\
+  classify {| s_file := ""; s_func := ""; s_hash := ""; s_kvar := "k"; s_vvar := "_"; s_ranged := E "src" ["src"] [];
+              s_body := [SStore "m" (E "len(m)" ["m"] ["len"]) (E "k" ["k"] [])]; s_after := []; s_text := "" |} = None.
+Proof. vm_compute. repeat split. Qed.
+Print Assumptions classifier_rejects.
+
+(** the last one really is order dependent — under the concrete evaluator [sum_evaluator] ("len(m)" = the number of
+    stores so far) the two enumerations of a two-entry map give maps that differ at key 0: the well-formedness
+    condition of the classifier ("no expression reads an object the loop writes") cannot be dropped *)
+Example reading_the_written_map_is_order_dependent :
+  let t := TStore "m" (E "len(m)" ["m"] ["len"]) (E "k" ["k"] []) in
+  let st0 := {| st_maps := []; st_slices := [] |} in
+  match run_loop sum_evaluator t "k" "_" [] [(5%N, 0%N); (7%N, 0%N)] st0, run_loop sum_evaluator t "k" "_" [] [(7%N, 0%N); (5%N, 0%N)] st0 with
+  | RCont x, RCont y => mlookup N.eqb 0%N (get_map "m" x) = Some 5%N /\ mlookup N.eqb 0%N (get_map "m" y) = Some 7%N
+  | _, _ => False
+  end.
+Proof. vm_compute. split; reflexivity. Qed.
+Print Assumptions reading_the_written_map_is_order_dependent.
+
+(** a classified loop run under the same evaluator: the copies differ as lists, agree as maps *)
+Example classified_loop_concrete :
+  let t := TStore "dup" (E "k" ["k"] []) (E "v" ["v"] []) in
+  let st0 := {| st_maps := []; st_slices := [] |} in
+  match run_loop sum_evaluator t "k" "v" [] [(1%N, 10%N); (2%N, 20%N)] st0, run_loop sum_evaluator t "k" "v" [] [(2%N, 20%N); (1%N, 10%N)] st0 with
+  | RCont x, RCont y =>
+      get_map "dup" x <> get_map "dup" y /\
+      forallb (fun k => match mlookup N.eqb k (get_map "dup" x), mlookup N.eqb k (get_map "dup" y) with
+                        | Some a, Some b => N.eqb a b | None, None => true | _, _ => false end) [0%N; 1%N; 2%N; 3%N] = true
+  | _, _ => False
+  end.
+Proof. vm_compute. split; [discriminate|reflexivity]. Qed.
+Print Assumptions classified_loop_concrete.
